@@ -304,6 +304,19 @@ def main(chk):
     rets = [r for r in ast.walk(disp) if isinstance(r, ast.Return) and r.value is not None and 'lock_id' in U(r.value)]
     chk.decide(bool(rets), 'command-lock-handoff', 'dispatch:returns-task-id', node=disp, file=CT, func='dispatch',
                detail_bad='the task id is not returned to the caller', detail_ok=U(rets[0].value) if rets else '')
+    # every request handed a task id has its own queue entry: a return that is not the immediate execution must come after this call's own queue.append
+    # and return the id that was appended (a request answered with another request's id is run once for two waiters; the second get_result fails)
+    appended = [U(g.nodes[p_].ast.value.args[0]) for p_ in pub if g.nodes[p_].ast.value.args]
+    for r in [x for x in ast.walk(disp) if isinstance(x, ast.Return) and x.value is not None]:
+        immediate = isinstance(r.value, ast.Call) and isinstance(r.value.func, ast.Subscript) and U(r.value.func.value) == 'self.dispatch_dict'
+        if immediate:
+            continue
+        rn = g.node_of(r)
+        ids = set(x.id for x in ast.walk(r.value) if isinstance(x, ast.Name))
+        ok = rn is not None and bool(pub) and any(g.dominates(p_, rn) for p_ in pub) and bool(ids & set(appended))
+        chk.decide(ok, 'command-lock-handoff', 'dispatch:own-queue-entry@%s' % U(r.value)[:30], node=r, file=CT, func='dispatch',
+                   detail_bad='dispatch returns `%s` on a path on which this request was not appended to the queue under that id: the request is never run for this caller '
+                              '(or shares the entry - and the single result - of another request)' % U(r.value), detail_ok='returns the id appended by this call')
     # run_queued_commands
     pops = [a for a in ast.walk(rq) if isinstance(a, ast.Assign) and M.call_name(a.value) == 'self.queue.pop']
     if not pops:
